@@ -345,7 +345,7 @@ pub fn run<M: Model + Clone>(spec: Spec<M>, out: &mut Outcome) {
             in_child(&dir, || replay_ops(cfg.build.as_ref(), &mut model, &ops, &shared));
         let reproduced = match &res {
             Some(Ok(seen)) => seen.iter().any(|(_, k, d)| {
-                format!("{}|{}", k, e1::normalize(d)) == sig
+                format!("{}|{}", k, e1::stable_detail(k, d)) == sig
             }),
             _ => false,
         };
